@@ -319,7 +319,7 @@ func resolveBatch(ctx context.Context, sources []interface{}, typ Type, selectio
 func resolveScalarBatch(sources []interface{}, typ *Scalar, destinations []*outputNode) error {
 	for i, source := range sources {
 		if typ.Unwrapper == nil {
-			destinations[i].Fill(unwrap(source))
+			destinations[i].Fill(nonNilBytes(unwrap(source)))
 			continue
 		}
 		res, err := typ.Unwrapper(source)
@@ -329,6 +329,16 @@ func resolveScalarBatch(sources []interface{}, typ *Scalar, destinations []*outp
 		destinations[i].Fill(res)
 	}
 	return nil
+}
+
+// nonNilBytes replaces a nil byte slice by an empty one. A []byte field is
+// advertised as the non-null scalar "bytes", but encoding/json renders a nil
+// slice as null; an empty slice is rendered as "".
+func nonNilBytes(v interface{}) interface{} {
+	if rv := reflect.ValueOf(v); rv.Kind() == reflect.Slice && rv.Type().Elem().Kind() == reflect.Uint8 && rv.IsNil() {
+		return reflect.MakeSlice(rv.Type(), 0, 0).Interface()
+	}
+	return v
 }
 
 // Resolves the enum type value for all the provided sources.
